@@ -77,6 +77,6 @@ def CaclRewards_cond_1 (farmInfo_Locked : Int) : Option (Bool) := do
 def untranslated : List String := []
 
 /-- names of the translated definitions -/
-def translated : List String := ["updatePool_blockInterval_1", "updatePool_rewardCollected_1", "updatePool_newRewardPerShare_1", "updatePool_rules_i_RewardPerShare_1", "updatePool_rules_i_RemainingReward_1", "updatePool_guard_1", "updatePool_guard_2", "updatePool_cond_3", "updatePool_guard_4", "updatePool_cond_5", "updatePool_cond_6", "updatePool_cond_7", "CaclRewards_pendingRewardTotal_1", "CaclRewards_pendingReward_1", "CaclRewards_locked_1", "CaclRewards_debt_1", "CaclRewards_cond_1"]
+def translated : List String := ["updatePool_blockInterval_1(height,pool_LastHeightDistrRewards)", "updatePool_rewardCollected_1(rules_i_RewardPerBlock,blockInterval)", "updatePool_newRewardPerShare_1(rewardCollected,pool_TotalLptLocked)", "updatePool_rules_i_RewardPerShare_1(rules_i_RewardPerShare,newRewardPerShare)", "updatePool_rules_i_RemainingReward_1(rules_i_RemainingReward,rewardCollected)", "updatePool_guard_1(height,pool_LastHeightDistrRewards)", "updatePool_guard_2(read_len_rules)", "updatePool_cond_3(height,pool_LastHeightDistrRewards,pool_TotalLptLocked)", "updatePool_guard_4(rules_i_RemainingReward,rewardCollected)", "updatePool_cond_5(read_rewardTotal_IsAllPositive)", "updatePool_cond_6(isDestroy)", "updatePool_cond_7(pool_StartHeight,pool_EndHeight)", "CaclRewards_pendingRewardTotal_1(r_RewardPerShare,farmInfo_Locked)", "CaclRewards_pendingReward_1(pendingRewardTotal,read_farmInfo_RewardDebt_AmountOf_r_Reward)", "CaclRewards_locked_1(farmInfo_Locked,deltaAmt)", "CaclRewards_debt_1(r_Reward,r_RewardPerShare,locked)", "CaclRewards_cond_1(farmInfo_Locked)"]
 
 end Irismod.Gen.PureFarm
